@@ -658,7 +658,13 @@ class Interp:
 
     def s_Raise(self, n, env):
         if n.exc is None:
-            raise Unsupported("bare raise")
+            # bare `raise`: re-raise the exception being handled
+            if not getattr(self, "handling", None):
+                raise Unsupported("bare raise outside an except clause")
+            cur = self.handling[-1]
+            if self.native:
+                raise cur
+            raise PyExc(cur)
         v = self.eval(n.exc, env)
         cause = self.eval(n.cause, env) if n.cause is not None else None
         if self.native:
@@ -825,7 +831,13 @@ class Interp:
                         env.set(h.name, exc)
                     if self.dom is not None:
                         self.dom.on_caught(exc, h, self.stack[-1] if self.stack else None)
-                    self.exec_block(h.body, env)
+                    if not hasattr(self, "handling"):
+                        self.handling = []
+                    self.handling.append(exc)
+                    try:
+                        self.exec_block(h.body, env)
+                    finally:
+                        self.handling.pop()
                     return
             raise
         except (ReturnEx, BreakEx, ContinueEx, PathEnd, Unsupported):
@@ -837,7 +849,13 @@ class Interp:
                 if self.exc_matches(exc, h.type, env):
                     if h.name:
                         env.set(h.name, exc)
-                    self.exec_block(h.body, env)
+                    if not hasattr(self, "handling"):
+                        self.handling = []
+                    self.handling.append(exc)
+                    try:
+                        self.exec_block(h.body, env)
+                    finally:
+                        self.handling.pop()
                     return
             raise
         else:
